@@ -4,5 +4,6 @@ set -e
 cd "$(dirname "$0")"
 export CARGO_NET_OFFLINE=true
 (cd lean && lake build driver CookModel 2>&1 | tail -5)
+python3 translators/prep_bindings.py "${VERIF_REPO:-/repo}" "$PWD/harness"   # manifest of the optional `ffi` dependency
 (cd harness && cargo build --offline 2>&1 | tail -3)
 echo setup-done
